@@ -12,12 +12,16 @@ import glob, json, os, shutil, subprocess, sys, tempfile
 
 VERIF = os.path.dirname(os.path.dirname(os.path.abspath(__file__)))
 args = sys.argv[1:]
+harmless = False
+if args[:1] == ["--harmless"]:
+    harmless = True
+    args = args[1:]
 jobs = 6
 if args[:1] == ["-j"]:
     jobs = int(args[1])
     args = args[2:]
 names = []
-for d in sorted(glob.glob(VERIF + "/seeded/C*-*")):
+for d in sorted(glob.glob(VERIF + ("/seeded/harmless/R*" if harmless else "/seeded/C*-*"))):
     name = os.path.basename(d)
     if not args or name in args or name.split("-")[0] in args:
         names.append(name)
@@ -33,7 +37,7 @@ for i, b in enumerate(buckets):
     subprocess.run(["git", "-C", w + "/repo", "checkout", "-q", "--", "."], check=True)
     subprocess.run(["cp", "-a", VERIF, w + "/verif"], check=True)
     script = ("mount --bind %s/repo /repo && mount --bind %s/verif /verif && ip link set lo up && cd /verif && "
-              "python3 tools/run_seeds.py --rows /verif/rows.json %s" % (w, w, " ".join(b)))
+              "python3 tools/%s --rows /verif/rows.json %s" % (w, w, "run_harmless.py" if harmless else "run_seeds.py", " ".join(b)))
     log = open(w + "/log", "w")
     procs.append((w, subprocess.Popen(["unshare", "-m", "-n", "bash", "-c", script], stdout=log, stderr=subprocess.STDOUT)))
 rows = []
@@ -46,7 +50,14 @@ for w, p in procs:
 rows.sort(key=lambda r: r[0])
 for r in rows:
     print(tuple(r))
-if not args:
+if harmless:
+    if not args:
+        with open(VERIF + "/seeded/HARMLESS.md", "w") as fh:
+            fh.write("# Behaviour-preserving changes vs. all twenty checks (quick tier)\n\n| change | outcome | alarms |\n|---|---|---|\n")
+            for r in rows:
+                fh.write("| %s | %s | %s |\n" % (r[0], r[1], r[2].replace("|", "\\|")))
+    print("%d of %d quiet" % (sum(1 for r in rows if r[1] == "quiet"), len(rows)))
+elif not args:
     with open(VERIF + "/seeded/RESULTS.md", "w") as fh:
         fh.write("# Seeded changes vs. the check of their own property (quick tier)\n\n")
         fh.write("replay a/b = exit code of `./check Cxx --replay <file>` with the change applied / on the unchanged tree (expected 1/0)\n\n")
